@@ -116,6 +116,31 @@ static inline void qsv_wf_row_at(mpq_ILLlpdata *O, int r)
 		ASSUME((!O->rowmap || (0 <= rowmap_r && rowmap_r < O->ncols)) && (!O->sense || WF_SENSE(sense_r)));
 	}
 }
+/* universal well-formedness of an index map.  CBMC's SAT back end only decides quantifiers over a
+ * CONSTANT range (it expands them), and the SMT back ends fail on these formulas (DESIGN.md 0), so
+ * groups whose loops read through structmap/rowmap at every index cap that map's length at
+ * QSV_MAPCAP and are labelled bounded (loops are still closed by inductive invariants). */
+#ifndef QSV_MAPCAP
+#define QSV_MAPCAP 64
+#endif
+static inline void qsv_wf_struct_all(mpq_ILLlpdata *O)
+{
+	ASSUME(O->nstruct <= QSV_MAPCAP);
+#ifdef QSV_CBMC
+	__CPROVER_assume(__CPROVER_forall { int k; (0 <= k && k < QSV_MAPCAP) ==> (k < O->nstruct ==> WF_STRUCT_AT(O, k)) });
+#else
+	{ int k; for (k = 0; k < O->nstruct; k++) { O->structmap[k] = k; } }
+#endif
+}
+static inline void qsv_wf_rowmap_all(mpq_ILLlpdata *O)
+{
+	ASSUME(O->nrows <= QSV_MAPCAP);
+#ifdef QSV_CBMC
+	__CPROVER_assume(__CPROVER_forall { int k; (0 <= k && k < QSV_MAPCAP) ==> (k < O->nrows ==> (0 <= O->rowmap[k] && O->rowmap[k] < O->ncols)) });
+#else
+	{ int k; for (k = 0; k < O->nrows; k++) { O->rowmap[k] = O->nstruct + k; } }
+#endif
+}
 static inline mpq_lpinfo *qsv_mk_lpinfo(mpq_ILLlpdata *O)
 {
 	mpq_lpinfo *lp = qsv_alloc(sizeof *lp);
